@@ -137,6 +137,77 @@ CHECKS = {
         'Needs and Writes are observational (one strace\'d run). Manifest reading and execution rest on ninja_ref and c05_exec because no '
         'ninja binary exists. Graphs above the state cap are judged by the declarative form. .gch bytes are ignored.',
         'DESIGN.md section 5, C05 and section 10'),
+    'C11': (
+        'TLC: Install_MC - operational installer (InstallOps, whole file system, re-rooting per call, DirMaker-style log) equals the '
+        'declarative rule book (Install) on the complete reachable state space of all conflict-free plans <= 2-3 rules over a 16-rule '
+        'catalog x 4 umask configurations; laws Confined/Exact/DryRunNoop/Idempotent/LogNamesCreated/UninstallRemovesExactlyLog/'
+        'OrderIndependent/ReversibleWhenFresh/ForeignKept. Trace validation (TraceInstall) of real meson setup / install / --internal '
+        'uninstall histories on model-exported plans (A) and seeded random rich projects (B) plus fixed probes',
+        'Model checking of the install rule book (260,622 states thorough / 17,540 quick, no depth bound) plus trace validation of the '
+        'real CLI: 786 (thorough) / 78 (quick) histories; after every command the complete listing of DESTDIR (type, mode, link target, '
+        'content), of everything else below the work directory, install-log.txt and intro-install_plan.json are compared by TLC with '
+        'the tree/log computed from the abstract plan.',
+        'Trusted: TLC, renderer/projection in harness/c11_install.py. Runs as root: chown parts of install_mode not exercised; the '
+        'target root is virtualised below <work>/r; "outside" is the work directory, not the whole machine.',
+        'DESIGN.md section 5, C11 and section 10'),
+    'C13': (
+        'TLC: eager rule book (ArgList) and lazy container/queues design (ArgListLazy) proved to refine it for all operation sequences '
+        'of the bounded spaces; replay of the exported operation space and trace validation of random histories on real '
+        'CLikeCompilerArgs, plus build.ninja ARGS of generated projects, by TraceArgList.tla',
+        'Model checking of specs/arglist: NothingInventedOrLost / NoDedupOrderAndMultiplicityKept / LaterSettingWins on the eager '
+        'meaning and lock-step refinement LazyRefinesEager over every operation sequence of the bounded spaces (630k states quick); '
+        'every path of the exported operation space and seeded random histories (2-40 operations on up to 4 aliased objects) run on '
+        'the real CLikeCompilerArgs with return values and end-of-history lists judged by TLC; compile ARGS of generated C projects '
+        'with settings duplicated at global/project/option/dependency/target level judged against the eager meaning.',
+        'Trusted: TLC, the stub compiler object, spelling tables of harness/c13_arglist.py. to_native() without copy is terminal; '
+        'index/slice assignment not generated.',
+        'DESIGN.md section 5, C13 and section 10'),
+    'C14': (
+        'TLC: character-level substitution rule book (Template: meson / cmake / cmake@ scanners, #mesondefine / #cmakedefine[01] line '
+        'forms, missing names, header dump) with laws model-checked over bounded template families; the same families plus random '
+        'fragment templates through real do_conf_file / configure_file / dump_conf_header judged by TraceTemplate.tla',
+        'Model checking of specs/template (OtherBytesUntouched, ScanEqualsSegments, NoRescan, MissingAreUndefinedNamesOfTheTemplate, '
+        'HeaderHasExactlyKeysSorted, 48 pinned cases; ~205k states quick) plus conformance: every template of the bounded families x '
+        'configurations x formats and seeded random templates are processed by the real code (files in and out, bytes compared; a '
+        'sample through configure_file() with the CLI) and TLC recomputes the expected text, missing set or rejection.',
+        'Trusted: TLC, the family renderer. Scope predicate TemplateSpace!InScope lists what the documentation leaves open (keyword as '
+        'name, bool inline in meson format, cmake value rescan ...).',
+        'DESIGN.md section 5, C14 and section 10'),
+    'C17': (
+        'TLC: rule book of the rewriter commands (specs/rewrite/Rewriter over an abstract project; laws model-checked on RewriterModel); '
+        'ProjectView.tla computes the project a set of build files denotes from the reference grammar and evaluator; trace validation '
+        'of the real `meson rewrite` CLI by TraceRewriter.tla',
+        'Model checking of the command rule book (every command sequence of length <= 3 quick / <= 4 thorough from three initial '
+        'projects, 84 commands: AddThenRemoveRestores, RemoveThenAddKeeps, OnlyAddressedChanges ...) plus trace validation: generated '
+        'projects x command sequences, model sequences from tlc -simulate and fixed projects are run through the real CLI; TLC parses '
+        'the tokens before and after each command, compares ProjectOf (all targets, every keyword argument by evaluated value, '
+        'variables) with Step folded over the commands, and checks textual locality and `info`.',
+        'Trusted: TLC; the real Lexer for tokens (C02) and the Parser statement count. Harness input-class labels only select the '
+        'signatures of known findings.',
+        'DESIGN.md section 5, C17 and section 10'),
+    'C19': (
+        'TLC: order axioms on all triples of a bounded version domain (operational = declarative comparison), tokenisation laws on all '
+        'strings <= 6 chars, interval design obeys the membership laws for all range pairs/check lists; trace validation '
+        '(TraceVersion.tla) of the real Version / version_compare* / Range / version_check_to_range / '
+        'version_compare_condition_with_min / str.version_compare (in-process interpreter + CLI) / if-block narrowing',
+        'Model checking of specs/version plus conformance: the exported version domain (2-3 spellings each, full pair table) and range '
+        'space (all pairs, all check lists <= 2) and seeded random long versions are executed by the real code; every recorded '
+        'execution is judged by TLC from the code-point strings (tokenisation included); Range results are observed only through '
+        'membership over a version domain.',
+        'Trusted: TLC, the renderer of abstract versions to strings, membership probing via the real __contains__ (itself checked). '
+        'always() may always answer "unknown"; ASCII only.',
+        'DESIGN.md section 5, C19 and section 10'),
+    'C20': (
+        'TLC: SemVer precedence axioms on all triples; Cargo-book interval tables = semver-crate matcher wherever claimed, pinned '
+        'deviations exactly D1/D2; cfg recursive-descent parser = span grammar on all token sequences <= 6; trace validation '
+        '(TraceCargo.tla) of SemVer, cargo_parse and eval_cfg',
+        'Model checking of specs/cargo plus conformance: the exported requirement x version grid (several spellings, single and paired '
+        'comparators), the SemVer pair table, every cfg token sequence <= 5 (sample at 6) under all 16 configurations, and seeded '
+        'random requirements / versions / cfg trees / malformed texts go through the real code; TLC parses the same texts and accepts '
+        'or rejects each observation.',
+        'Known findings recorded in known_findings.d/C20.json. Pre-release versions are judged only where CargoReq!InScope holds. cfg '
+        'trailing comma and lone all/any/not may go either way.',
+        'DESIGN.md section 5, C20 and section 10'),
 }
 
 NOT_YET = {}
